@@ -187,7 +187,13 @@ func runC05(b *mon.B) {
 		c := srv.L.Dial(simnet.RemoteFor(caseNo))
 		before := srv.Tap.Count()
 		c.Feed(chunks...)
-		c.EOF()
+		if k%4 == 1 {
+			// the read that delivers the last bytes also reports the end of the stream
+			c.EOFWithLastBytes()
+			b.Class("server/eof-with-last-bytes/%s", sc.Name)
+		} else {
+			c.EOF()
+		}
 		if err := c.WaitClosed(); err != nil {
 			b.Inconclusive("case %d: %v", caseNo, err)
 			continue
